@@ -2186,7 +2186,8 @@ bn_sub(bn_p bn, bn_p n, bn_digit_t *borrow) {
 	}
 	digits = bn->digits;
 	if (digits < n->digits ||
-	    (digits == n->digits && bn->num[(digits - 1)] <= n->num[(digits - 1)])) {
+	    (digits == n->digits && (0 == digits || /* 0 - 0: no top digit. */
+	    bn->num[(digits - 1)] <= n->num[(digits - 1)]))) {
 		digits = bn->count;
 	}
 	bn_init_digits__int(bn, digits);
